@@ -524,6 +524,9 @@ def rows_cands(L_, executed):
     alive = env["$alive"]
     for (k1, v1), (k2, v2) in itertools.combinations(bools, 2):
         out.append((f"env.alive==not({k1} or {k2})", B(C.compare("==", B(alive), bnot(bor(B(v1), B(v2)))))))
+    for k, v in bools:  # a single "episode over" / "running" flag
+        out.append((f"env.alive==not {k}", B(C.compare("==", B(alive), bnot(B(v))))))
+        out.append((f"env.alive=={k}", B(C.compare("==", B(alive), B(v)))))
     return out
 
 
